@@ -42,7 +42,10 @@ class BlockDiagonalOperator(EndomorphicOperator):
         self._dtype = {kk: oo.sampling_dtype for kk, oo in operators.items()}
         if all(vv is None for vv in self._dtype.values()):
             self._dtype = None
-        check_dtype_or_none(self._dtype, self._domain)
+        if self._dtype is not None:
+            # missing items (unity operators) have no entry in self._dtype
+            for vv in self._dtype.values():
+                check_dtype_or_none(vv)
 
         for op in self._ops:
             if op is not None:
